@@ -674,6 +674,34 @@ func newResource(t *TypeSpec) jsonapi.Resource {
 	return &jsonapi.SoftResource{Type: &typ}
 }
 
+// buildWrappedThroughPointer wraps a pointer to a ZERO struct first and fills the struct afterwards through the
+// pointer (the way json.Unmarshal or a database scan fill a struct the caller has already wrapped), not through Set.
+func buildWrappedThroughPointer(t *TypeSpec, rs *ResSpec) jsonapi.Resource {
+	st := structTypeFor(t)
+	pv := reflect.New(st)
+	w := jsonapi.Wrap(pv.Interface())
+	ev := pv.Elem()
+	ev.FieldByName("ID").SetString(rs.ID)
+	for i, a := range t.Attrs {
+		if v, ok := rs.Attrs[a.Name]; ok {
+			if g := v.Go(); g != nil {
+				ev.FieldByName(fmt.Sprintf("A%d", i)).Set(reflect.ValueOf(g))
+			}
+		}
+	}
+	for i, r := range t.Rels {
+		f := ev.FieldByName(fmt.Sprintf("R%d", i))
+		if r.ToOne {
+			if v, ok := rs.ToOne[r.Name]; ok {
+				f.SetString(v)
+			}
+		} else if v, ok := rs.ToMany[r.Name]; ok {
+			f.Set(reflect.ValueOf(append([]string{}, v...)))
+		}
+	}
+	return w
+}
+
 // buildResource materialises a ResSpec.
 func buildResource(t *TypeSpec, rs *ResSpec) jsonapi.Resource {
 	res := newResource(t)
